@@ -76,6 +76,12 @@ pub fn set_order_mode(mode: OrderMode) {
     ORDER_LOG.with(|l| l.borrow_mut().clear());
 }
 
+/// Whether an order other than the collections' own has been requested.
+#[must_use]
+pub fn ordering_on() -> bool {
+    ORDER_MODE.with(Cell::get) != OrderMode::Natural
+}
+
 /// The iteration points passed so far, with the number of items at each.
 #[must_use]
 pub fn order_log() -> Vec<(&'static str, usize)> {
@@ -86,7 +92,9 @@ pub fn order_log() -> Vec<(&'static str, usize)> {
 /// current [`OrderMode`]; `key` gives a total order that does not depend on
 /// hash seeds.
 pub fn order<T, K: Ord>(point: &'static str, mut items: Vec<T>, key: impl Fn(&T) -> K) -> Vec<T> {
-    ORDER_LOG.with(|l| l.borrow_mut().push((point, items.len())));
+    if ordering_on() {
+        ORDER_LOG.with(|l| l.borrow_mut().push((point, items.len())));
+    }
     match ORDER_MODE.with(Cell::get) {
         OrderMode::Natural => {}
         OrderMode::Reversed => items.reverse(),
